@@ -204,6 +204,14 @@ def run(ctx):
                     hit = (f["def"], t["l"], "calls " + c)
                 elif c in STOP_ENTRIES and c != e:
                     hit = (f["def"], t["l"], "calls " + c)
+                else:
+                    # a synchronous helper on the same handle that requests the stop (`self.stop_and_join()?`)
+                    h = fx.callee_fn(t)
+                    if h is not None and h["kind"] in ("fn", "assoc_fn") and not h.get("is_async") and h["def"] not in STOP_ENTRIES:
+                        for _hb, ht in ctx.body(fx, h).normal_calls():
+                            hc = ht.get("resolved") or ht.get("callee")
+                            if hc in stop_fns or ht.get("callee") in stop_fns or (hc in STOP_ENTRIES and hc != e):
+                                hit = (f["def"], t["l"], "calls %s, which calls %s" % (c, hc))
                 if hit:
                     break
             if hit:
@@ -385,7 +393,8 @@ def check_awaiters(ctx, fx):
         det = {"polls": t["callee"], "on": t["argtys"][0][:80]}
         ctx.require(ok and len(polls) == 1, "R04.4", "Addr::poll", "awaiting an address must return the poll of its shared termination future", fn=pf["def"], site=pf["loc"], detail=det)
     A = nfa.Alphabet(
-        calls=[("stop", nfa.callee_is("addr::Addr::<A>::stop")), ("join", nfa.callee_is("addr::OwningAddr::<A>::join", "actor::spawner::actor_handle::ActorHandle::<A>::join"))],
+        calls=[("stop", nfa.callee_is("addr::Addr::<A>::stop")), ("join", nfa.callee_is("addr::OwningAddr::<A>::join", "actor::spawner::actor_handle::ActorHandle::<A>::join")),
+               ("halt", nfa.callee_is("addr::Addr::<A>::halt"))],
         adts={"core::ops::control_flow::ControlFlow": "Res", "core::result::Result": "Res", "core::option::Option": "Option"},
         retval=True,
         fut_types=[("addr::Addr<", "addr"), ("[Output=core::option::Option<A>]", "join")],
@@ -395,9 +404,9 @@ def check_awaiters(ctx, fx):
         if not ctx.require(len(fam) == 1, "R04.4", entry, "async body of %s not found" % entry):
             continue
         b = ctx.body(fx, fam[0])
-        n = nfa.build(b, A)
+        n = nfa.build(b, A, fx, depth=2)  # helper methods on the same handle are part of the entry point
         need = True
-        viols, ps = nfa.check(n, StopThenAwaitLoose(awaited))
+        viols, ps = nfa.check(n, StopThenAwaitLoose(awaited, delegate=(entry != "addr::Addr::<A>::halt")))
         ctx.count_nfa(n.stats(), ps)
         if viols:
             for v in viols:
@@ -408,7 +417,7 @@ def check_awaiters(ctx, fx):
     cs = fx.fn("addr::OwningAddr::<A>::consume_sync")
     if ctx.require(cs is not None, "R04.4", "consume_sync", "OwningAddr::consume_sync not found"):
         b = ctx.body(fx, cs)
-        n = nfa.build(b, A)
+        n = nfa.build(b, A, fx, depth=2)
         viols, ps = nfa.check(n, StopThenAwaitLoose("join", sync=True))
         ctx.count_nfa(n.stats(), ps)
         for v in viols:
@@ -421,9 +430,10 @@ class StopThenAwaitLoose(nfa.Spec):
     """On every path: stop is requested; if it fails the error is returned at once; otherwise the termination
     (address / join future) is awaited (sync variant: the join future is created) before returning."""
 
-    def __init__(self, awaited, sync=False):
+    def __init__(self, awaited, sync=False, delegate=False):
         self.awaited = awaited
         self.sync = sync
+        self.delegate = delegate  # the entry point may hand the whole job to Addr::halt (stop, then await) — judged there
         self.init = ("s0",)
 
     def step(self, st, label):
@@ -439,6 +449,12 @@ class StopThenAwaitLoose(nfa.Spec):
             return ("stopcalled",)
         if ev in ("sw:Res::Ok", "sw:Res::Err") and src == "stop" and ph == "stopcalled":
             return ("stop_ok",) if ev.endswith("Ok") else ("stop_failed",)
+        if self.delegate and ev == "call:halt":
+            if ph != "s0":
+                return nfa.Err("R04.4: halt delegated in phase %s" % ph)
+            return ("halting",)
+        if self.delegate and ev == "done:halt" and ph == "halting":
+            return ("awaited",)
         if ev == "sw:Option::None" and ph == "s0":
             return ("no_actor",)  # weak handle could not be upgraded: AlreadyStopped
         if ev == "sw:Option::Some":
